@@ -49,7 +49,7 @@ let run_m (n : int) (evs : string list) : string =
   let changes = List.init n (fun t -> Add { dkey = n_of_int (t + 1); dart = N0; dpay = N0 }) in
   match vis_summary false None changes (List.map parse_vis evs) with
   | None -> "REJECT"
-  | Some ((rs, idx), log) ->
+  | Some (((rs, idx), log), _) ->
     let batches = List.filter_map (function OBatch (m, ms) -> Some (Printf.sprintf "%d:%s" (int_of_nat m) (tids ms)) | _ -> None) log in
     let keys = match idx with None -> [] | Some l -> List.sort compare (List.map (fun k -> int_of_n k - 1) l) in
     Printf.sprintf "ACC B %s R %s I %s" (dash (String.concat ";" batches)) (show_results rs)
@@ -57,20 +57,21 @@ let run_m (n : int) (evs : string list) : string =
 
 (* X <skipgc> <init> <changes> <ev> ...: the exchanges of an end-to-end run on one
    referrers tag; caller i passes the i-th change *)
-let run_x (sg : bool) (init0 : string) (changes : change list) (evs : string list) : string =
+let run_x ?(cmp_dangling = true) (sg : bool) (init0 : string) (changes : change list) (evs : string list) : string =
   let r0 = if init0 = "none" then None else Some (List.map (fun k -> { dkey = n_of_int (int_of_string k); dart = N0; dpay = N0 })
                                                   (if init0 = "-" then [] else String.split_on_char ',' init0)) in
   match vis_summary sg r0 changes (List.map parse_vis evs) with
   | None -> "REJECT"
-  | Some ((rs, idx), log) ->
+  | Some (((rs, idx), log), dg) ->
     let keys l = if l = [] then "-" else String.concat "," (List.map (fun k -> string_of_int (int_of_n k)) l) in
     let puts = List.filter_map (function OPut (_, nw) -> Some (if nw = [] then "e" else keys (List.map (fun d -> d.dkey) nw)) | _ -> None) log in
     let hidden = List.map (fun c -> int_of_n (match c with Add d -> d.dpay | Remove d -> d.dpay) = 9) changes in
     let rs_s = String.concat "," (List.mapi (fun t r ->
       if List.nth hidden t then Printf.sprintf "%d=*" t
       else match r with Some r -> Printf.sprintf "%d=%s" t (show_res r) | None -> Printf.sprintf "%d=pending" t) rs) in
-    Printf.sprintf "ACC R %s I %s U %s" rs_s
+    Printf.sprintf "ACC R %s I %s U %s G %s" rs_s
       (match idx with None -> "none" | Some l -> keys l) (dash (String.concat ";" puts))
+      (if cmp_dangling then string_of_int (int_of_nat dg) else "*")
 
 let cap_num = function CapUnknown -> 0 | CapSupported -> 1 | CapUnsupported -> 2
 
@@ -88,7 +89,7 @@ let () =
     | id :: "M" :: n :: evs -> Printf.printf "%s %s\n" id (run_m (int_of_string n) evs)
     | id :: "X" :: sg :: init0 :: cs :: evs ->
       let evs = List.filter (fun e -> e.[0] <> 'J') evs in   (* J<hex>: the replay of the end-to-end case *)
-      Printf.printf "%s %s\n" id (run_x (sg = "1") init0 (parse_changes cs) evs)
+      Printf.printf "%s %s\n" id (run_x ~cmp_dangling:(String.length sg = 1) (sg.[0] = '1') init0 (parse_changes cs) evs)
     | [id; "K"; bits] ->
       let bs = List.init (String.length bits) (fun i -> bits.[i] = '1') in
       let rs = set_caps CapUnknown bs in
